@@ -7,6 +7,7 @@
 
 """
 # string evaluation
+import copy
 import re
 from numbers import Number
 
@@ -1007,6 +1008,7 @@ class BaseOdeModel(object):
             self._hasNewTransition.trip()
         elif isinstance(event, Transition):             # Convert single transition into event
             rate=event.equation
+            event=copy.copy(event)                      # the caller's Transition keeps its rate
             event._equation=None
             derived_event=Event(rate=rate,
                                 transition_list=[event])
